@@ -106,6 +106,23 @@ func init() {
 					}
 				}
 			}
+			// tall trees (height 15-17): the longest root-to-leaf paths, where the stated bounds have the least slack
+			tall := []int{32768}
+			if c.Tier == "thorough" {
+				tall = []int{32768, 49000}
+			}
+			for _, n := range tall {
+				for _, order := range []string{"ascending", "descending"} {
+					if len(r.Raw) > 0 {
+						break
+					}
+					k, fail := bigTreeCostsStride(n, order, 97)
+					total += k
+					if fail != "" {
+						rawViolation(c, r, fail, map[string]any{"keys": n, "order": order})
+					}
+				}
+			}
 			rsizes := []int{256, 1500}
 			if c.Tier == "thorough" {
 				rsizes = []int{64, 256, 1500, 5000}
